@@ -351,6 +351,44 @@ def run(prog: Program, L: Ledger) -> None:
                     "draws bypass the seeded generator", norm(call))
     L.floor("stochastic call sites (numpy Generator methods on the simulation generator)", n_sites, 24)
 
+    # (d) third-party stochastic entry points: anything named like a sampler, called on an external
+    #     (non-quansino, non-numpy.random) object, must be handed the simulation generator explicitly
+    STOCH = {"random", "rvs", "rand", "randn", "randint", "random_sample", "sample", "shuffle", "permutation", "choice",
+             "uniform", "normal", "standard_normal", "integers", "rattle", "random_rotation", "random_state"}
+    n_ext = 0
+    for fi in prog.iter_functions():
+        inl = Inliner(fi.node)
+        for call in calls_in(fi.node):
+            if not isinstance(call.func, ast.Attribute) or call.func.attr not in STOCH:
+                continue
+            recv = call.func.value
+            d = dotted(recv)
+            if d is None and isinstance(recv, ast.Call):
+                d = dotted(recv.func)
+            if d is None:
+                continue
+            head = d.split(".")[0]
+            if head in ("self", "context") or d.endswith("rng") or d.endswith("_rng"):
+                continue
+            if head not in fi.module.bindings and not any(b.local == head for b in fi.module.all_bindings):
+                continue
+            full = prog.resolve_dotted(fi.module, d)
+            if full.startswith(prog.package) or full.startswith("numpy.random") or full.split(".")[0] in FOREIGN_MODULES:
+                continue  # internal, or already judged by G1
+            if full.split(".")[0] in ("numpy", "math") and call.func.attr not in ("random", "rand", "randn"):
+                continue
+            n_ext += 1
+            gen_kw = None
+            for kw in call.keywords:
+                if kw.arg in ("rng", "random_state", "seed"):
+                    gen_kw = kw.value
+            okg = gen_kw is not None and norm(inl.inline(gen_kw)) in ("context.rng", "self._rng", "self.context.rng")
+            L.check(okg, "G1", f"{fi.qualname}:{full}.{call.func.attr}", f"{fi.module.relpath}:{call.lineno}",
+                    f"`{norm(call)[:80]}` draws random numbers through {full}.{call.func.attr} without being handed the simulation generator "
+                    f"({'no rng/random_state argument' if gen_kw is None else 'argument `' + norm(gen_kw) + '` is not the simulation generator'}): it falls back to a global or fresh generator",
+                    "two runs with the same seed differ when the global numpy/Python generator state differs", norm(call)[:100])
+    L.ok("G1", "third-party-samplers", "src/quansino", f"{n_ext} external sampler call sites classified")
+
     # ---------------------------------------------------------------- G4
     n_g4 = 0
     for fi in prog.iter_functions():
